@@ -11,6 +11,7 @@ import (
 	"runtime"
 	"strings"
 	"syscall"
+	"time"
 
 	astisub "github.com/asticode/go-astisub"
 	"verif/harness/fw"
@@ -487,6 +488,45 @@ func c18Strace(c *fw.Ctx) *fw.Outcome {
 	return nil
 }
 
+// c18Complete: without any fault a successful write is the complete document, however long the list: every writer
+// on lists of 1, 255, 256 and 65 537 cues, the STL writer also on 100 001 cues (more than its five-digit counters
+// and two-byte subtitle numbers hold), counted by a sink that keeps only what it needs
+func c18Complete(c *fw.Ctx) *fw.Outcome {
+	for _, n := range []int{1, 255, 256, 65537, 100001} {
+		s := astisub.NewSubtitles()
+		cd := fixedNow
+		s.Metadata = &astisub.Metadata{Framerate: 25, STLDisplayStandardCode: "0", STLCreationDate: &cd, STLRevisionDate: &cd}
+		for i := 0; i < n; i++ {
+			s.Items = append(s.Items, textItem(time.Duration(i)*time.Second/4, time.Duration(i)*time.Second/4+200*time.Millisecond, fmt.Sprintf("cue number %d", i)))
+		}
+		for _, w := range allWriters {
+			if n > 65537 && w.name != "stl" {
+				continue
+			}
+			var b bytes.Buffer
+			var err error
+			if p := guard(func() { err = w.write(*s, &b) }); p != "" || err != nil {
+				o := fw.Bad(uint64(n), nil, "%s writer failed on a list of %d cues without any fault: %v %s", w.name, n, err, p)
+				return &o
+			}
+			// every cue's text is in the document, the last one included
+			have := bytes.Count(b.Bytes(), []byte("cue number "))
+			if w.name == "stl" {
+				have = (b.Len() - 1024) / 128
+				if (b.Len()-1024)%128 != 0 {
+					have = -1
+				}
+			}
+			if have != n || !bytes.Contains(b.Bytes(), []byte(fmt.Sprintf("cue number %d", n-1))) {
+				o := fw.Bad(uint64(n), nil, "%s writer returned a nil error on a list of %d cues, but the destination received a document holding %d of them (%d bytes): without a fault a successful return means the complete document", w.name, n, have, b.Len())
+				return &o
+			}
+			c.Count("complete_documents_checked", 1)
+		}
+	}
+	return nil
+}
+
 func c18Run(c *fw.Ctx) fw.Outcome {
 	nDocs := tierN(c.Tier, 18, 360)
 	switch {
@@ -514,6 +554,12 @@ func c18Run(c *fw.Ctx) fw.Outcome {
 		}
 		c.Feature("long lines")
 		return fw.OK(0x1001, "lines of 2^16-100 .. 2^20 bytes in srt, webvtt, ssa")
+	case c.Idx == 2*nDocs+3:
+		if o := c18Complete(c); o != nil {
+			return *o
+		}
+		c.Feature("completeness without faults")
+		return fw.OK(0x1004, "lists of 1..100001 cues: the destination receives every cue")
 	case c.Idx == 2*nDocs+1:
 		if o := c18Files(c); o != nil {
 			return *o
@@ -536,9 +582,9 @@ func init() {
 	fw.Register(&fw.Property{
 		ID:          "C18",
 		Level:       "fault_enumeration",
-		Rule:        "read faults: for documents of every format (generated by the C01-C06 generators; the last 6 are ~200 KiB) and every offset k in 0..len (every offset when the document has at most 300 bytes, else offsets 0..64, the last 64 and 300 random ones; for TTML up to the end of the root element) the harness reader delivers k bytes and then fails with a non-EOF error, once as (0, err) and once as (m>0, err) together with the last chunk; the reader must return a non-nil error (a reader that stopped reading before the fault is counted separately). write faults: for random rich cue lists and each of the 5 writers, the destination fails at every output offset (all offsets up to 3000 bytes, else 400 edge + 600 random), refusing the chunk or accepting a partial write; the writer must return a non-nil error; without a fault the sink must have received exactly the document. Plus lines of 2^16-100..2^20 bytes in srt/webvtt/ssa (error or complete parse), the file helpers (missing input, missing directory, EISDIR for every extension, ENOSPC via a symlink to /dev/full through Subtitles.Write and the CLI) and, in the thorough tier, strace ENOSPC injection on the CLI's output writes. distinct_nontrivial = distinct documents/lists; events count the faults injected.",
+		Rule:        "read faults: for documents of every format (generated by the C01-C06 generators; the last 6 are ~200 KiB) and every offset k in 0..len (every offset when the document has at most 300 bytes, else offsets 0..64, the last 64 and 300 random ones; for TTML up to the end of the root element) the harness reader delivers k bytes and then fails with a non-EOF error, once as (0, err) and once as (m>0, err) together with the last chunk; the reader must return a non-nil error (a reader that stopped reading before the fault is counted separately). write faults: for random rich cue lists and each of the 5 writers, the destination fails at every output offset (all offsets up to 3000 bytes, else 400 edge + 600 random), refusing the chunk or accepting a partial write; the writer must return a non-nil error; without a fault the sink must have received exactly the document. Plus, without any fault, lists of 1, 255, 256, 65 537 cues through every writer and 100 001 cues through the STL writer: the destination must hold every cue. Plus lines of 2^16-100..2^20 bytes in srt/webvtt/ssa (error or complete parse), the file helpers (missing input, missing directory, EISDIR for every extension, ENOSPC via a symlink to /dev/full through Subtitles.Write and the CLI) and, in the thorough tier, strace ENOSPC injection on the CLI's output writes. distinct_nontrivial = distinct documents/lists; events count the faults injected.",
 		Assumptions: []string{"a fault is an error other than io.EOF", "for TTML only faults before the end of the root element must be reported"},
-		Cases:       func(tier string) int64 { return 2*tierN(tier, 18, 360) + 3 },
+		Cases:       func(tier string) int64 { return 2*tierN(tier, 18, 360) + 4 },
 		Anchors:     []string{"ReadFromSRT", "ReadFromWebVTT", "ReadFromSSAWithOptions", "readNBytes", "ReadFromTTML", "ReadFromTeletext", "WriteToSRT", "WriteToWebVTT", "WriteToSSA", "WriteToSTL", "WriteToTTML", "Open", "Subtitles.Write"},
 		Run:         c18Run,
 	})
